@@ -24,9 +24,10 @@ import (
 
 const prop = "C17"
 
+// long tokens: comparisons that look only at a bounded prefix / a hash of a prefix must not pass
 const (
-	tablesToken = "Tbl-s3cret.token"
-	maintToken  = "Mnt-s3cret.token"
+	tablesToken = "Tbl-s3cret.token-0123456789abcdefghijklmnopqrstuvwxyzABCDEFGHIJKLMNOPQRSTUVWXYZ-0123456789abcdefghijklmnopqrstuvwxyz.END"
+	maintToken  = "Mnt-s3cret.token-zyxwvutsrqponmlkjihgfedcba9876543210-ZYXWVUTSRQPONMLKJIHGFEDCBA.END"
 )
 
 // ---- domain A: bearer tokens against the real wiring ---------------------------------------------------
@@ -79,7 +80,7 @@ func genCall(t *rapid.T) Call {
 		right = maintToken
 	}
 	scheme := rapid.SampledFrom([]string{"Bearer", "bearer", "BEARER", "bEaReR"}).Draw(t, "scheme")
-	c.Variant = rapid.SampledFrom([]string{"right", "right", "right", "none", "empty-token", "prefix", "suffix", "extended", "case-flip", "leading-space", "trailing-space", "other-services-token", "wrong-scheme", "no-space", "random"}).Draw(t, "variant")
+	c.Variant = rapid.SampledFrom([]string{"right", "right", "right", "none", "empty-token", "prefix", "suffix", "extended", "case-flip", "leading-space", "trailing-space", "other-services-token", "wrong-scheme", "no-space", "random", "last-char", "long-prefix", "middle-char"}).Draw(t, "variant")
 	switch c.Variant {
 	case "right":
 		c.Header = scheme + " " + right
@@ -95,6 +96,13 @@ func genCall(t *rapid.T) Call {
 		c.Header = scheme + " " + right + rapid.SampledFrom([]string{"x", " ", "0", "."}).Draw(t, "ext")
 	case "case-flip":
 		c.Header = scheme + " " + flipCase(right)
+	case "last-char":
+		c.Header = scheme + " " + right[:len(right)-1] + "X"
+	case "long-prefix":
+		c.Header = scheme + " " + right[:len(right)-rapid.IntRange(1, 12).Draw(t, "drop")]
+	case "middle-char":
+		i := rapid.IntRange(1, len(right)-2).Draw(t, "pos")
+		c.Header = scheme + " " + right[:i] + "#" + right[i+1:]
 	case "leading-space":
 		c.Header = scheme + "  " + right
 	case "trailing-space":
